@@ -120,3 +120,29 @@ let () =
                        | Ok _ | Err _ | OutOfModel -> "answer" | OutOfFuel -> "fuel" | Crash _ -> "crash" | Diverge -> "diverge") in
              ["#" ^ string_of_int fuel; run d; (if d = 0 then "none" else run (d - 1)); rc])
     | _ -> failwith "c06_depth: arity")
+
+(* ---- the extended model (Model/InterpExt.v): escapeJsString, json, round with digits ---- *)
+let () =
+  (* render_x: same request and answer as "render" (ops_interp.ml), through Model.render_x *)
+  register "render_x" (fun a ->
+    match a with
+    | key :: tname :: fuel :: cl :: bl :: oblig :: rest ->
+        let reg = Hashtbl.find Ops_interp.registries key in
+        let s = String.concat " " rest in
+        let (ijs, ds) = (match String.index_opt s ';' with
+                         | Some i -> (String.trim (String.sub s 0 i), String.trim (String.sub s (i + 1) (String.length s - i - 1)))
+                         | None -> failwith "render_x: missing ;") in
+        let ij = if ijs = "none" then None else Some (value_of (Sexp.parse ijs)) in
+        let (did, dm) = (match value_of (Sexp.parse ds) with
+                         | VMap (id, m) -> (id, m)
+                         | VNull -> (N0, [])
+                         | _ -> failwith "render_x: data must be a map") in
+        let ob = if oblig = "-" then [] else List.map (fun h -> bstr_of_hex h) (String.split_on_char ',' oblig) in
+        let cf = { c_reg = reg; c_ij = ij; c_oblig = ob; c_msgs = None } in
+        let r = render_x cf (nat_of_int (int_field fuel)) (xs tname) did dm (Ops_interp.opt_nat cl) (Ops_interp.opt_n bl) (n_of_int 1000000) in
+        let cls = (match r.rr_outcome with
+                   | Ok _ -> ["ok"] | Err m -> ["err"; hex_of_bstr m] | Crash m -> ["crash"; hex_of_bstr m]
+                   | Diverge -> ["diverge"] | OutOfFuel -> ["fuel"] | OutOfModel -> ["outofmodel"]) in
+        [String.concat "," cls; hex_of_bstr r.rr_file; n_s r.rr_line; "#" ^ string_of_int (int_of_nat r.rr_unbound);
+         "#" ^ string_of_int (List.length r.rr_shared_writes)] @ List.map hex_of_bstr r.rr_writes
+    | _ -> failwith "render_x")
